@@ -102,6 +102,20 @@ SuperLeft(gam, L, Rr) == /\ RLt(L.u, RNeg(L.c)) /\ RLt(Rr.u, RNeg(Rr.c))
                          /\ RoeOK(L, Rr) /\ RSign(RoeU(L, Rr)) < 0 /\ RLt(RoeC2(gam, L, Rr), RSq(RoeU(L, Rr)))
 SwSuperRight(L, Rr) == RLt(L.c, L.u) /\ RLt(Rr.c, Rr.u)
 SwSuperLeft(L, Rr) == RLt(L.u, RNeg(L.c)) /\ RLt(Rr.u, RNeg(Rr.c))
+(* C18: the wave speed used by the time step is the spectral radius of the Jacobian of the PHYSICAL flux: the analytic
+   Jacobian A(W) (conservative variables) has the eigenpairs (u, .), (u +- c, r+-), checked exactly:  A r = lambda r *)
+EuJac(gam, W) == LET u == W.u H == EuH(gam, W) g1 == RSub(gam, One) IN
+  << <<Zero, One, Zero>>,
+     <<RMul(RMul(Half, RSub(gam, R(3))), RSq(u)), RMul(RSub(R(3), gam), u), g1>>,
+     <<RMul(u, RSub(RMul(RMul(Half, g1), RSq(u)), H)), RSub(H, RMul(g1, RSq(u))), RMul(gam, u)>> >>
+EuEigen(gam, W, s) == LET lam == RAdd(W.u, RMul(R(s), W.c))
+                          r == <<One, lam, RAdd(EuH(gam, W), RMul(R(s), RMul(W.u, W.c)))>>
+                      IN MVec(EuJac(gam, W), r) = VScale(lam, r)
+EuEigen0(gam, W) == LET r == <<One, W.u, RMul(Half, RSq(W.u))>> IN MVec(EuJac(gam, W), r) = VScale(W.u, r)
+SwJac(g, W) == << <<Zero, One>>, <<RSub(RSq(W.c), RSq(W.u)), RMul(R(2), W.u)>> >>
+SwEigen(g, W, s) == LET lam == RAdd(W.u, RMul(R(s), W.c)) r == <<One, lam>> IN MVec(SwJac(g, W), r) = VScale(lam, r)
+SpectralRadius(W) == RAdd(RAbs(W.u), W.c)        \* = max |u|, |u + c|, |u - c| for c > 0
+
 (* reflection parity of the flux components: even quantities change sign, odd ones are unchanged *)
 MirrorOf(fl, parity) == [k \in 1..Len(fl) |-> IF parity[k] = "even" THEN RNeg(fl[k]) ELSE fl[k]]
 EuParity == <<"even", "odd", "even">>
